@@ -15,7 +15,7 @@ def _nontrivial(line):
     return True
 
 
-def translator(ROOT, REPO, BUILD, log, sh):
+def _pools_translator(ROOT, REPO, BUILD, log, sh):
     t0 = time.time()
     coq = os.path.join(ROOT, "coq")
     out = os.path.join(BUILD, "c13gen")
@@ -75,6 +75,63 @@ def translator(ROOT, REPO, BUILD, log, sh):
                 replay="regenerated lemma `forallb well_bracketed all_scripts = true` (Gen/PoolScripts.v from %s/larking) fails\n"
                        "regenerate: cd harness && go run ./c13gen -repo %s -out /tmp/PoolScripts.v\n%s\n%s\n"
                        % (REPO, REPO, "\n".join(l for _, l in uniq[:40]), o2[-1500:]))
+    return info
+
+
+def _barrier_translator(ROOT, REPO, BUILD, log, sh):
+    """lib/barrierskel: where the WaitGroups of larking's stream types are Add-ed to and Wait-ed on, and whether those
+    sites follow the guarded discipline that Proofs/BarrierProofs.v proves safe (Gen/BarrierSkeleton.v)."""
+    coq = os.path.join(ROOT, "coq")
+    out = os.path.join(BUILD, "c13gen")
+    os.makedirs(out, exist_ok=True)
+    gen = os.path.join(out, "BarrierSkeleton.v")
+    rc, o = sh(["go", "run", ".", os.path.join(REPO, "larking")], 300, cwd=os.path.join(ROOT, "lib", "barrierskel"),
+               env=dict(os.environ, GOFLAGS="-mod=mod", GOPROXY="off", GOSUMDB="off", GOTOOLCHAIN="local"))
+    if rc != 0 or "barrier_types" not in o:
+        return dict(ok=False, detail="the translator lib/barrierskel failed on %s/larking: %s" % (REPO, o[-400:]),
+                    replay="translator lib/barrierskel failed\n" + o[-2000:])
+    src = o[o.index("(* GENERATED"):]
+    open(gen, "w").write(src)
+    lock = open(os.path.join(BUILD, ".coq.lock"), "w")
+    fcntl.flock(lock, fcntl.LOCK_EX)
+    try:
+        bv = os.path.join(coq, "theories", "Model", "Barrier.v")
+        if not os.path.exists(bv + "o") or os.path.getmtime(bv + "o") < os.path.getmtime(bv):
+            sh(["coqc", "-Q", "theories", "Larking", "theories/Model/Barrier.v"], 600, cwd=coq)
+        for ext in (".vo", ".glob", ".vok", ".vos"):
+            try: os.remove(gen[:-2] + ext)
+            except OSError: pass
+        rc, o2 = sh(["coqc", "-Q", os.path.join(coq, "theories"), "Larking", "-Q", ".", "C13tmp", "BarrierSkeleton.v"], 300, cwd=out)
+        log.write("== coqc regenerated BarrierSkeleton.v (rc=%s) ==\n%s\n" % (rc, o2[-1500:]))
+        if rc == 0:
+            dst = os.path.join(coq, "theories", "Gen", "BarrierSkeleton.v")
+            if not os.path.exists(dst) or not filecmp.cmp(gen, dst, shallow=False):
+                shutil.copyfile(gen, dst)
+    finally:
+        fcntl.flock(lock, fcntl.LOCK_UN)
+        lock.close()
+    sites = re.findall(r"\(\* (\w+:\d+) \*\) BSite \[[\d;]*\] (true|false)", src)
+    if rc == 0:
+        return dict(ok=True, barrier_sites=len(sites),
+                    detail="%d Add / Wait sites of WaitGroup-owning types regenerated from %s/larking; forallb btype_ok barrier_types = true recompiled" % (len(sites), REPO))
+    bad = [s for s, ok in sites if ok == "false"]
+    return dict(ok=False,
+                detail="a sync.WaitGroup of a stream type is Add-ed to or Wait-ed on outside the guarded discipline (Add only under the mutex after "
+                       "testing closed; Wait only after closed was set under the mutex) at %s, so C13_barrier_never_misused no longer applies to "
+                       "the code: an Add at counter zero can run concurrently with Wait (a data race)" % ", ".join(bad),
+                replay="regenerated lemma `forallb btype_ok barrier_types = true` (Gen/BarrierSkeleton.v from %s/larking) fails\n"
+                       "regenerate: cd lib/barrierskel && go run . %s/larking\nsites off the discipline: %s\n%s\n" % (REPO, REPO, ", ".join(bad), o2[-800:]))
+
+
+def translator(ROOT, REPO, BUILD, log, sh):
+    info = _pools_translator(ROOT, REPO, BUILD, log, sh)
+    if not info.get("ok"):
+        return info
+    b = _barrier_translator(ROOT, REPO, BUILD, log, sh)
+    if not b.get("ok"):
+        return b
+    info["barrier_sites"] = b.get("barrier_sites")
+    info["detail"] = info.get("detail", "") + "; " + b["detail"]
     return info
 
 
